@@ -101,7 +101,8 @@ def n6(ctx, fx, H):
     KEYED = ("get", "index", "contains_key", "get_key_value", "get_mut")
     STATE_ADTS = ("SDJWTCommon", hmodel.HSTRUCT)
     nsw = 0
-    for fn in H.sel_fns:
+    closures = [f for n_, f in fx.fns.items() if f.kind == "closure" and any(n_.startswith(u.name + "::{closure") for u in H.sel_fns)]
+    for fn in list(H.sel_fns) + closures:
         conds = [(b, c) for (b, tt, ft, c) in common.bool_switches(fn)] + [(b, subj) for (b, subj) in common.discr_switches(fn)]
         for (b, c) in conds:
             nsw += 1
@@ -115,6 +116,8 @@ def n6(ctx, fx, H):
                 if x.kind == "call" and x.d["term"].get("name") in KEYED and x.kids and (recv_is_field(x, DECODED) or recv_is_field(x, RAW)):
                     stack.extend(x.kids[1:])   # the key is judged, the map is the sanctioned access
                     continue
+                if x.kind == "agg" and x.d["agg"].get("kind") == "closure":
+                    continue   # what a closure captured is used inside the closure: its own branch conditions are judged there
                 if x.kind == "field" and x.d.get("adt") in STATE_ADTS and x.d.get("name") not in ("sd_jwt_engine",):
                     bad = x
                     break
